@@ -475,7 +475,7 @@ func checkMergedView(p *Program, r *Report) {
 		nextName := "method:(iterator).Next"
 		fk := funcKey(fn)
 		var moved []string
-		inl := map[string]bool{}
+		inl := iterHelpers(p, a, fn)
 		for _, h := range a.fillHelpers {
 			inl[h] = true
 		}
@@ -518,6 +518,43 @@ func checkMergedView(p *Program, r *Report) {
 					}
 				}
 			}
+		}
+		// MERGE-NO-DROP: a record a sub-iterator produced is always queued; whether
+		// a deletion is shown is decided when records leave the heap (DT-SUPPRESS),
+		// never when they enter it
+		dropped := false
+		nRead := 0
+		for _, s := range c.Samples {
+			if s.Panic || (s.Kind != "ret" && s.Kind != "back") {
+				continue
+			}
+			cm := termByKey(s.Loop)
+			for i, e := range s.Events {
+				if e.Op != "ev" || e.Aux != nextName || i+1 >= len(s.Events) || s.Events[i+1].Op != "evret" {
+					continue
+				}
+				if s.Kind == "back" && (cm == nil || !e.Args[len(e.Args)-1].contains(cm)) {
+					continue // an earlier iteration's read
+				}
+				res := s.Events[i+1].Args[0]
+				if res.Op != "tuple" || s.St.truth(res.Args[0]) != 1 || s.St.truth(tEq(res.Args[1], tNil)) == 0 {
+					continue
+				}
+				nRead++
+				queued := false
+				for _, e2 := range s.Events[i+1:] {
+					if e2.Op == "ev" && e2.Aux == add {
+						queued = true
+					}
+				}
+				if !queued && !(s.Kind == "ret" && len(s.Vals) > 0 && s.St.truth(tEq(s.Vals[len(s.Vals)-1], tNil)) == 0) {
+					dropped = true
+					r.violate("MERGE-NO-DROP", fk+" / every record read from a table is queued", p.pos(fn.Pos()), "a record that a sub-iterator returned is not put on the heap on some path: the merged view (the raw one used by compaction included) loses records of that table, e.g. the deletions of the oldest table of a compacted segment", witnessOf(p, s.St.trace))
+				}
+			}
+		}
+		if !dropped {
+			r.ok("MERGE-NO-DROP", fk+" / every record read from a table is queued", fmt.Sprintf("%d successful reads, each followed by a heap insertion", nRead))
 		}
 		r.floor("ENTRY-INDEX."+fn.Name(), n, 1, "heap insertions in "+fk)
 		if len(moved) > 0 {
